@@ -516,6 +516,9 @@ func checkQueries(prop, tier string, seed int64) int {
 			rep.HarnessErr = append(rep.HarnessErr, err.Error())
 			continue
 		}
+		if i%3 == 1 {
+			c.NullScopes()
+		}
 		cases = append(cases, c)
 	}
 	// decision tables enumerated by TLC (MC_Queries), replayed
